@@ -943,7 +943,7 @@ def gen_case(rng, focus, nops=None):
         # typed keys promise separate entries for ==-equal values of different type; results are then
         # compared type-strictly (repr), so a typed keymap that merges 1 / 1.0 / True shows as a wrong result
         universe += [1.0, True, 2.0, 0.0]
-    if focus in ('C16', 'C18', 'C20') and b['kind'] == 'dir':
+    if focus in ('C06', 'C16', 'C18', 'C20') and b['kind'] == 'dir':
         # twin comparisons cannot attribute a divergence to the known file-name aliasing of
         # dir_archive ('a-b'/'a_b', 1/'1'), so those foci do not feed it alias pairs
         universe = [u for u in universe if u not in ('a_b', '1')]
